@@ -30,7 +30,7 @@ class Family:
             self.local = ['I', 'n']
         elif kind == 'tJ':       # used for the predefined gates only (C11 gate_events)
             ops, self.named, self.numbers = F.family('tJ', sym)
-            self.gr = ['all', 2]
+            self.gr = ['species' if sym == 'U1xU1' else 'all', 2]      # as for SpinfulFermions: with U1xU1 the statistics is per species (c_up and c_down of different sites commute)
             self.pairs, self.local = [], ['I', 'nu', 'nd']
         else:
             ops, self.named, self.numbers = F.family('spinful', sym)
